@@ -1,6 +1,7 @@
 package an
 
 import (
+	"os"
 	"fmt"
 	"go/constant"
 	"go/token"
@@ -780,8 +781,12 @@ func (pf *ParserFacts) guardedByIdx(s SlotStore, v ssa.Value, onlyIdx int64, acc
 		pass, fail := b.Succs[a.holdsOn], b.Succs[1-a.holdsOn]
 		cut[[2]*ssa.BasicBlock{b, pass}] = true
 		used = append(used, string(a.kind))
+		if os.Getenv("VERIF_DEBUG") == "guard" {
+			hdr := loops[b]
+			fmt.Fprintf(os.Stderr, "GUARD %s atom %s at %s loop=%v domTarget=%v failErr=%v\n", s.Key(), a.kind, pf.W.Pos(a.ifi.Cond.Pos()), hdr != nil, hdr != nil && hdr.Dominates(target), leadsToErrorReturn(fail, 0))
+		}
 		// loop guard (lists): failing edge must be an error exit, the loop must come before the store
-		if hdr := loops[b]; hdr != nil && hdr.Dominates(target) && !loops2(loops, target, hdr) && leadsToErrorReturn(fail, 0) {
+		if hdr := loops[b]; hdr != nil && (hdr.Dominates(target) || pf.loopOnEveryPath(fn, v, hdr, target)) && !loops2(loops, target, hdr) && leadsToErrorReturn(fail, 0) {
 			// every iteration passes the test: no path from the start of the body back to the
 			// loop header avoids the passing edge of the guard
 			body := loopBody(hdr)
@@ -824,6 +829,21 @@ func (pf *ParserFacts) guardedByIdx(s SlotStore, v ssa.Value, onlyIdx int64, acc
 			how := "passed by every iteration"
 			if adopted > 0 {
 				how = "passed by every iteration that does not hand the element's type to an untyped counterpart"
+				// handing a type on is only sound for a value that has one: the element must be
+				// known to be non-void (tested here or in the function that produced the list)
+				if pf.slotIsExprList(s) && (!acc[atomNonVoid] || len(accepted) > 1) {
+					okNV, whyNV := pf.producerGuard(v, atomNonVoid)
+					if os.Getenv("VERIF_DEBUG") == "guard" {
+						fmt.Fprintf(os.Stderr, "NONVOID %s v=%s (%T) producer=%v %s\n", s.Key(), v.String(), v, okNV, whyNV)
+					}
+					if !okNV {
+						okNV, _ = pf.guardedByIdx(s, v, onlyIdx, atomNonVoid)
+					}
+					if !okNV {
+						return false, "an untyped counterpart takes over the element's type, but nothing establishes that the element has a value: a call without results (also wrapped in brackets) leaves the variable untyped"
+					}
+					how += "; elements are tested for having a value where the list is produced"
+				}
 			}
 			return true, "guard " + string(a.kind) + " in a loop over the values, " + how + ", error exit on failure"
 		}
@@ -1274,4 +1294,38 @@ func init() {
 		sort.Strings(names)
 		fmt.Println(strings.Join(names, "\n"))
 	}
+}
+
+// slotIsExprList: the node field behind the slot is a list of expressions (not a single call
+// whose declared result types are compared).
+func (pf *ParserFacts) slotIsExprList(s SlotStore) bool {
+	named := pf.NodeTypes[s.Node]
+	if named == nil {
+		return false
+	}
+	st, ok := named.Underlying().(*types.Struct)
+	if !ok {
+		return false
+	}
+	for i := 0; i < st.NumFields(); i++ {
+		if st.Field(i).Name() == s.Field {
+			_, list := pf.exprLike(st.Field(i).Type())
+			return list
+		}
+	}
+	return false
+}
+
+// loopOnEveryPath: every path from the definition of v to target enters the loop with this
+// header (the loop need not dominate target when the value itself only exists on one branch).
+func (pf *ParserFacts) loopOnEveryPath(fn *ssa.Function, v ssa.Value, hdr, target *ssa.BasicBlock) bool {
+	from := defBlock(fn, v)
+	if from == target {
+		return false
+	}
+	cut := map[[2]*ssa.BasicBlock]bool{}
+	for _, p := range hdr.Preds {
+		cut[[2]*ssa.BasicBlock{p, hdr}] = true
+	}
+	return !reachableFromWithout(from, cut, target)
 }
